@@ -128,6 +128,10 @@ def run_real(T, prog, outcomes, shutdown_at=None, make_buffer=None, eager=False)
             out.append(('start', now(), sorted(xs)))
             await asyncio.sleep(dur * TICK)
             out.append(('end', now(), ok))
+            # the function works through the set it was given the ordinary way - by emptying it (`while args:
+            # args.pop()`); what it was handed is its own business, also when it then fails
+            for _ in range(len(xs) if ok else (len(xs) + 1) // 2):
+                xs.pop()
             if not ok:
                 # a failing call is a failing call, whatever the class of the error: an ordinary exception, the
                 # CancelledError of something the function awaited, or another BaseException-only error
